@@ -440,6 +440,9 @@ def attribute(case, v):
     from vf.core.known import TRIGGERS
 
     prog = case[0][2]
+    if len(case) > 2 and case[2]:
+        # the tree that was processed is the program chained with a (separately built / twin-leaf) copy of itself
+        prog = ("chain", prog, prog)
     sig = str(v.extra.get("sig", ""))
     if v.kind == "process-raised" and sig.startswith(("RelationalAlgebraError@_engine.py:_append_binary_to_select", "RelationalAlgebraError@_engine.py:materialize")):
         from vf.core.known import trig_sorted_chain_with_empty_operand
